@@ -5,7 +5,8 @@ ROOT = os.path.dirname(os.path.dirname(os.path.abspath(__file__)))
 REPO = os.environ.get("VERIF_REPO", "/repo")
 CACHE = os.path.join(ROOT, ".cache")
 COQ = os.path.join(ROOT, "coq")
-TARGET = os.path.join(CACHE, "target")
+# a scratch tree given through VERIF_REPO (seeded-change trials) gets its own build directory
+TARGET = os.path.join(CACHE, "target" if REPO == "/repo" else "target-" + hashlib.sha1(REPO.encode()).hexdigest()[:8])
 GUARD = "lalrpop_verif"
 NPROC = os.cpu_count() or 8
 
